@@ -265,7 +265,7 @@ func checkC04(e *Env) {
 				e.Violate(&Violation{What: fmt.Sprintf("two calls with the same arguments returned different seeds: %s vs %s", r.Out, r.Out2), Ops: []plan.Op{it.Op}, Observed: r})
 				return
 			case r.Out1b != r.Out:
-				e.Violate(&Violation{What: "a previously returned seed changed after the caller overwrote a later result: the returned slice is not fresh", Ops: []plan.Op{it.Op}, Observed: r})
+				e.Violate(&Violation{What: "a previously returned seed changed after the caller overwrote a later result and the garbage collector (with finalizers) ran: the returned slice is not fresh", Ops: []plan.Op{it.Op}, Observed: r})
 				return
 			case r.Out3 != r.Out:
 				e.Violate(&Violation{What: fmt.Sprintf("after the caller overwrote a returned seed, the next call with the same arguments returned %s instead of %s: results are served from memory the caller can reach", r.Out3, r.Out), Ops: []plan.Op{it.Op}, Observed: r})
